@@ -16,7 +16,7 @@ democmd=$(python3 -c "import json;print(json.load(open('$out/meta.json'))['demo_
 cp -r "$out/demo/." "$wt/" 2>/dev/null
 echo "== demo WITHOUT patch"; (cd "$wt" && timeout 900 bash -c "$democmd") > "$ovd/demo_without.log" 2>&1; rc_without=$?
 git apply "$out/patch.diff" || { echo "patch does not apply"; exit 2; }
-echo "== build"; go build ./... > "$ovd/build.log" 2>&1; rc_build=$?
+echo "== build"; go build $pkgs > "$ovd/build.log" 2>&1; rc_build=$?
 echo "== demo WITH patch"; (cd "$wt" && timeout 900 bash -c "$democmd") > "$ovd/demo_with.log" 2>&1; rc_with=$?
 # baseline tests of the touched packages (demo files removed first)
 (cd "$wt" && find . -name 'zz_seed_demo*' -delete; rm -rf cmd/zzseeddemo)
